@@ -138,10 +138,40 @@ def pingCredArgv : Option (Str × Str) → List Str
   | some (u, p) => opt 85 u ++ opt 80 p
   | none => opt 65 [78, 79, 78, 69]
 
-/-- presence ping: `session info all` with the session's credentials -/
-def pingArgv (path iface host port : Str) (cred : Option (Str × Str)) : List Str :=
-  [path] ++ opt 73 iface ++ opt 72 host ++ opt 112 port ++ pingCredArgv cred
-  ++ [[115, 101, 115, 115, 105, 111, 110], [105, 110, 102, 111], [97, 108, 108]]
+/-- ipmitool(1): "-L <privlvl>  Force session privilege level.  Can be CALLBACK, USER, OPERATOR,
+ADMINISTRATOR.  Default is ADMINISTRATOR." -/
+def defaultLevel : Str := [65, 68, 77, 73, 78, 73, 83, 84, 82, 65, 84, 79, 82]
+
+/-- the two ways to start ipmitool at privilege level `lv`: `-L lv` spelled out, or — only for the
+default level — no `-L` at all -/
+def levelArgvD (spelled : Bool) (lv : Str) : List Str :=
+  if lv = defaultLevel ∧ spelled = false then [] else opt 76 lv
+
+/-- presence ping: `session info all` on the configured interface / host / port, at the configured
+privilege level, with the configured cipher suite and the session's credentials.  `spelled = false`
+leaves `-L` out when (and only when) the configured level is ipmitool's default. -/
+def pingArgv (spelled : Bool) (path iface host port : Str) (level : Nat) (cipher : Option Str)
+    (cred : Option (Str × Str)) : Option (List Str) := do
+  let lv ← levelName level
+  pure ([path] ++ opt 73 iface ++ opt 72 host ++ opt 112 port ++ levelArgvD spelled lv
+    ++ cipherArgv cipher ++ pingCredArgv cred
+    ++ [[115, 101, 115, 115, 105, 111, 110], [105, 110, 102, 111], [97, 108, 108]])
+
+/-- what ipmitool's option scan (getopt: every option of this back-end takes one operand) makes of
+an argument vector without argv[0]: (letter, operand) pairs up to the first non-option -/
+def optScan : List Str → List (Nat × Str)
+  | [45, c] :: v :: rest => (c, v) :: optScan rest
+  | _ => []
+
+/-- the operand the program works with for option `letter`: the last one given, else its default -/
+def effOpt (letter : Nat) (dflt : Option Str) (args : List Str) : Option Str :=
+  match ((optScan args).filter (fun p => p.1 = letter)).getLast? with
+  | some p => some p.2
+  | none => dflt
+
+/-- privilege level / cipher suite a started ipmitool runs with (`none` = ipmitool's built-in suite) -/
+def effLevel (argv : List Str) : Option Str := effOpt 76 (some defaultLevel) argv.tail
+def effCipher (argv : List Str) : Option Str := effOpt 67 none argv.tail
 
 /-! ### output -/
 
